@@ -66,20 +66,44 @@ Definition nth_py {A} (l : list A) (i : Z) : option A :=
   if (0 <=? j) && (j <? n) then nth_error l (Z.to_nat j) else None.
 
 (* simple equality: defined here for integers, strings, booleans and none of the same kind *)
-Definition simple_eq (a b : value) : option bool :=
-  match a, b with
-  | VInt _ x, VInt _ y => Some (x =? y)
-  | VStr x _, VStr y _ => Some (str_eqb x y)
-  | VBool x, VBool y => Some (Bool.eqb x y)
-  | VNone, VNone => Some true
-  | _, _ => None
-  end.
-
 Definition kind_class (v : value) : N :=
   match v with
   | VUndef => 0 | VNone => 1 | VBool _ => 2 | VInt _ _ | VFloat _ => 3 | VStr _ _ => 4
   | VArr _ => 5 | VMap _ => 6 | VBytes _ => 7
   end%N.
+
+(* an f64 against an integer, as the comparison of the two rational numbers: a finite binary64
+   datum is m * 2^e (Model.Order.fcls_of), compared exactly on Z (dy_cmp).  NaN: left open. *)
+Definition cmp_float_int (x : spec_float) (n : Z) : option comparison :=
+  match Order.fcls_of x with
+  | Order.FNaN => None
+  | Order.FInf neg => Some (if neg then Lt else Gt)
+  | Order.FFin m e => Some (Order.dy_cmp m e n 0)
+  end.
+
+(* a number against a number where at least one side is an integer (float x float: C13/C15) *)
+Definition num_cmp (a b : value) : option comparison :=
+  match a, b with
+  | VInt _ x, VInt _ y => Some (x ?= y)
+  | VFloat x, VInt _ n => cmp_float_int x n
+  | VInt _ n, VFloat y => option_map CompOpp (cmp_float_int y n)
+  | _, _ => None
+  end.
+
+(* equality: integers (and an integer against a float) as numbers, strings, booleans, none;
+   two defined values of different kinds are not equal; containers, float x float and anything
+   against undefined are left open *)
+Definition simple_eq (a b : value) : option bool :=
+  match a, b with
+  | VStr x _, VStr y _ => Some (str_eqb x y)
+  | VBool x, VBool y => Some (Bool.eqb x y)
+  | VNone, VNone => Some true
+  | VUndef, _ | _, VUndef => None
+  | _, _ =>
+      if N.eqb (kind_class a) (kind_class b)
+      then match num_cmp a b with Some c => Some (match c with Eq => true | _ => false end) | None => None end
+      else Some false
+  end.
 
 Definition show_small (v : value) : option str :=
   match v with
@@ -125,8 +149,15 @@ Definition arith (o : bop) (a b : value) : ev :=
 
 Definition order (o : bop) (a b : value) : ev :=
   match a, b with
-  | VInt _ x, VInt _ y =>
-      Val (VBool (match o with OLt => x <? y | OLe => x <=? y | OGt => y <? x | _ => y <=? x end))
+  | (VInt _ _ | VFloat _), (VInt _ _ | VFloat _) =>
+      match num_cmp a b with
+      | Some c =>
+          Val (VBool (match o, c with
+                      | OLt, Lt | OLe, Lt | OLe, Eq | OGt, Gt | OGe, Gt | OGe, Eq => true
+                      | _, _ => false
+                      end))
+      | None => Unspec
+      end
   | _, _ => if N.eqb (kind_class a) (kind_class b) then Unspec else Err   (* no ordering across kinds *)
   end.
 
@@ -231,6 +262,8 @@ Definition run_test (v : value) (n : str) (kw : list (str * ev)) : ev :=
   | [] =>
     if str_eqb n (s_ "defined") then Val (VBool (negb (is_undefined v)))
     else if str_eqb n (s_ "undefined") then Val (VBool (is_undefined v))
+    else if str_eqb n (s_ "string") then
+      match v with VUndef => Unspec | VStr _ _ => Val (VBool true) | _ => Val (VBool false) end
     else if str_eqb n (s_ "odd") || str_eqb n (s_ "even") then
       match v with
       | VInt _ z => Val (VBool (if str_eqb n (s_ "odd") then Z.odd z else Z.even z))
